@@ -3,4 +3,5 @@ INVARIANT Emit
 INVARIANT StaysValid
 CONSTANT Depth = 8
 CONSTANT Family = "C05"
+CONSTANT Dense = TRUE
 CHECK_DEADLOCK FALSE
